@@ -497,11 +497,25 @@ def rule_R1(P, rep):
     # (e) descriptors: the tag word decides the deallocator
     if P.fns("ABTI_mem_alloc_desc"):
         D = P.fn("ABTI_mem_alloc_desc", MH)
+        # path-wise: the constant stored into the tag word (directly or through a flag local) is paired with the
+        # allocator that ran on that path
+        from abtverif import paths as _paths
+
+        def _sel_tag(F, nid, ctx):
+            nd = F.nodes[nid]
+            if nd.get("k") == "call" and nd.get("fn") in ("ABTU_malloc", "ABTI_mem_pool_alloc"):
+                return ("call", nd["fn"], (), nid)
+            if nd.get("k") == "bin" and nd.get("asg") and nd["op"] == "=" and _is_tag_word(F, nd["lh"]):
+                return ("tag", ctx.value(nd["rh"]), nid)
+            return None
         tags = {}
-        for b, i, lh, rh in D.stores():
-            if rh is not None and _is_tag_word(D, lh):
-                al = [D.nodes[j]["fn"] for b2, j in D.calls({"ABTU_malloc", "ABTI_mem_pool_alloc"}) if cfg.dominates(D, j, i)]
-                tags[D.nodes[D.strip(rh)].get("cv")] = al
+        for toks, kind, rv, rtxt in _paths.enumerate_paths(D, _sel_tag, max_len=40):
+            for j, t in enumerate(toks):
+                if t[0] == "tag":
+                    al = [u[1] for u in toks[:j] if u[0] == "call"]
+                    cur = tags.setdefault(t[1], al)
+                    if cur != al:
+                        tags[t[1]] = sorted(set(cur) | set(al)) + ["<disagree>"]
         noext = P.variant == "no_ext_thread"
         ok = tags.get(0) == ["ABTI_mem_pool_alloc"] and (noext or tags.get(1) == ["ABTU_malloc"])
         rep.ob("R1", "descriptor tag word: 1 = malloc'ed, 0 = memory pool", ok, str(tags), loc=D.file, site="desc/tag")
